@@ -379,7 +379,9 @@ def collinear(rows):
 def probit_conditioning(rows):
     """|correlation| between the Rossow failure probabilities' normal scores and lg(load) over the infinite-zone levels.
     The Probit analyser regresses one on the other; for |r| ~ 0 the slope is rounding noise and TS = 10**(2.56/slope)
-    is undefined.  Returns None if fewer than 2 levels."""
+    is undefined.  Returns None if fewer than 2 levels.  Evaluated on the series the analysers work on (irrelevant run-out
+    levels dropped): dropping a level can turn a well determined regression into an exactly symmetric one."""
+    rows = relevant(rows)
     s = structure(rows)
     lv = s["infinite_levels"]
     if len(lv) < 2:
@@ -491,14 +493,16 @@ def _compare_closed(name, rows, kind, c, perm, ctx, index=None, index2=None):
             else:
                 raise Violation("%s: TN = %r although the finite-zone fractures lie exactly on a line (no scatter: TN should be 1)"
                                 % (name, bad[0]), bucket="collinear_TN")
-    if s["n_runouts"] == 0 and kind == "load":
-        # FC18_a: without run-outs ND is the line evaluated at load 0.1 in the caller's unit
+    if s["n_runouts"] == 0 and (kind == "load" or math.isinf(ra["ND"]) or math.isinf(rb["ND"])):
+        # FC18_a: without run-outs ND is the line evaluated at load 0.1 in the caller's unit.  Under a load unit change ND moves by
+        # c**k_1; for steep curves with loads in Pa the extrapolation to 0.1 Pa overflows (ND = inf), so that even a cycle unit
+        # change or a permutation compares inf with 1.6e308 - same root cause, same class (no run-outs), nothing else has ND = inf
         if not close(rb["ND"], want["ND"], RTOL):
             if ctx.known("FC18_a"):
                 skip.add("ND")
             else:
-                raise Violation("%s: no run-outs, loads x %r: ND %r -> %r (k_1 = %r); ND is the line read off at load 0.1 of the "
-                                "current unit" % (name, c, ra["ND"], rb["ND"], ra["k_1"]), bucket="norunout_ND_unit")
+                raise Violation("%s: no run-outs, %s x %r: ND %r -> %r (k_1 = %r); ND is the line read off at load 0.1 of the "
+                                "current unit" % (name, kind, c, ra["ND"], rb["ND"], ra["k_1"]), bucket="norunout_ND_unit")
     if name == "Probit":
         pc = probit_conditioning(rows)
         if pc is not None and pc < 0.01 and s["n_runouts"] > 0:
@@ -976,7 +980,17 @@ def _ml_run(name, kind):
             if any((z > 8.2 and not fr) or (z < -37.5 and fr) for z, fr in zs):      # ... or cdf itself underflows for a fracture
                 ctx.label("library_likelihood_underflow")
                 own = la
-        if math.isfinite(la) and not abs(own - la) <= 1e-6 * (1.0 + abs(la)):
+        cancel = 0.0
+        if ra["SD"] > 0 and ra["TS"] > 0 and ra["TS"] != 1.0:
+            # ... and loses about eps/q absolutely for a run-out of probability q = 1 - cdf (at q ~ 1e-16 the library's term is off
+            # by ln 2): the same bound as in likelihood_reference; below q = 1e-13 the value cannot be verified at all
+            sS_ = abs(math.log10(ra["TS"]) / _Z90)
+            qs = [float(sps.norm.cdf(-math.log10(rows[i][0] / ra["SD"]) / sS_)) for i in s["infinite"] if not rows[i][2]]
+            cancel = sum(4.0 * 2.2e-16 / max(q, 1e-300) for q in qs)
+            if qs and min(qs) < 1e-13:
+                ctx.label("runout_tail_region")
+                own = la
+        if math.isfinite(la) and not abs(own - la) <= 1e-6 * (1.0 + abs(la)) + cancel:
             raise Violation("%s: library likelihood %r at its estimate %r, reference %r" % (name, own, ra, la), bucket="%s:likelihood_value" % name)
         # ---- the ML estimate is not worse than the Elementary estimate it starts from --------------------------------
         el = analyse("Elementary", full, index)[1]
